@@ -333,14 +333,44 @@ def fact_sim(f, track, init_flags=frozenset(), on_call=None, on_edge_flags=None)
     """Simulate f with states (flags, facts). `track(key)` selects which stable test keys are remembered.
     on_call(bi, term, flags) -> flags ; on_edge_flags(bi, succ, facts_on_edge, flags) -> flags.
     Returns (states_at_block_entry, exits)."""
+    def on_stmt(bi, i, stmt, st):
+        # constant propagation for plain locals (the `matches!` idiom stores a bool and branches on it later)
+        flags, facts = st
+        lhs, rv = stmt['lhs'], stmt['rv']
+        if lhs['p']:
+            return st
+        key = ('local', lhs['l'])
+        had = [x for x in facts if x[0] == key]
+        if rv['k'] == 'use' and rv['a']['k'] == 'const' and isinstance(rv['a'].get('val'), int) and rv['a'].get('ty') in ('bool', 'u8', 'usize', 'isize', 'u32'):
+            nf = set(facts) - set(had)
+            nf.add((key, '==', rv['a']['val']))
+            return (flags, frozenset(nf))
+        if had:
+            return (flags, frozenset(set(facts) - set(had)))
+        return st
+
     def on_term(bi, t, st):
         flags, facts = st
         if t['k'] == 'call' and on_call:
             flags = on_call(bi, t, flags)
+        if t['k'] == 'call' and not t['dest']['p']:
+            key = ('local', t['dest']['l'])
+            had = [x for x in facts if x[0] == key]
+            if had:
+                facts = frozenset(set(facts) - set(had))
         return (flags, facts)
 
     def on_edge(bi, s, v, d, vals, st):
         flags, facts = st
+        # branch on a local whose constant value is known on this path
+        tt = f.blocks[bi]['term']
+        if tt['discr']['k'] in ('copy', 'move') and not tt['discr']['place']['p']:
+            key = ('local', tt['discr']['place']['l'])
+            known = [x for x in facts if x[0] == key and x[1] == '==']
+            if known:
+                kv = known[0][2]
+                taken = v == kv if v is not None else kv not in vals
+                return (flags, facts) if taken else None
         efs = edge_fact(d, v, vals)
         newfacts = set(facts)
         for ef in efs:
@@ -353,7 +383,7 @@ def fact_sim(f, track, init_flags=frozenset(), on_call=None, on_edge_flags=None)
             flags = on_edge_flags(bi, s, efs, flags)
         return (flags, frozenset(newfacts))
 
-    return f.simulate((init_flags, frozenset()), on_term=on_term, on_edge=on_edge)
+    return f.simulate((init_flags, frozenset()), on_stmt=on_stmt, on_term=on_term, on_edge=on_edge)
 
 
 def flag_policy(v):
